@@ -14,11 +14,11 @@ import (
 	"github.com/lugu/qiloop/bus/net"
 )
 
-func c11Exec(sc c11Scenario, f c11Fault, hold bool, wrap string, hang time.Duration) *c11Obs {
+func c11Exec(sc c11Scenario, f c11Fault, hold bool, wrap string, fam int, hang time.Duration) *c11Obs {
 	o := &c11Obs{calls: make([]int, sc.n), callLat: make([]time.Duration, sc.n), subClosed: make([]bool, sc.m),
 		subRead: make([]int, sc.m), subEarly: make([]bool, sc.m), cbEarly: make([]bool, sc.d), cbCount: make([]int, sc.d),
 		replied: make([]bool, sc.n), early: make([]bool, sc.n), payloadOK: make([]bool, sc.n)}
-	r := &c11Runner{sc: sc, f: f, hold: hold, hang: hang, full: hang, obs: o, nextID: 1,
+	r := &c11Runner{sc: sc, f: f, hold: hold, fam: fam, hang: hang, full: hang, obs: o, nextID: 1,
 		callRes: make([]chan c11CallRes, sc.n), callGot: make([]*c11CallRes, sc.n), callID: make([]uint32, sc.n),
 		started: make([]bool, sc.n), held: make([]bool, sc.n), wrote: make([]bool, sc.n),
 		cheld: make([]bool, sc.n), cancelCh: make([]chan struct{}, sc.n), cancelled: make([]bool, sc.n),
@@ -40,7 +40,7 @@ func c11Exec(sc c11Scenario, f c11Fault, hold bool, wrap string, hang time.Durat
 		if o.aborted != "" {
 			break
 		}
-		if !r.faulted && f.pos == pos && f.frag == 0 {
+		if !r.faulted && f.pos == pos && f.frag == 0 && !c11InDispatch(f.kind) {
 			if r.waitIdle("before fault") {
 				r.fire()
 			}
@@ -67,14 +67,22 @@ func (r *c11Runner) step(pos int, step c11Step) {
 			return
 		}
 		j := i
-		r.cl.OnDisconnect(func(error) { atomic.AddInt32(&r.cb[j], 1) })
+		if !r.bounded(func() { r.cl.OnDisconnect(func(error) { atomic.AddInt32(&r.cb[j], 1) }) }) {
+			r.abort("OnDisconnect(%d) did not return within %v", j, r.full)
+			return
+		}
 		r.cbReg[j] = true
 		r.lab("LOnDisc %d", j)
 	case "sub":
 		if r.faulted && !r.hold {
 			return
 		}
-		_, ev, err := r.cl.Subscribe(c11SubService, 1, uint32(200+i))
+		var ev chan []byte
+		var err error
+		if !r.bounded(func() { _, ev, err = r.cl.Subscribe(c11SubService, 1, uint32(200+i)) }) {
+			r.abort("Subscribe(%d) did not return within %v", i, r.full)
+			return
+		}
 		if err != nil {
 			r.abort("Subscribe: %v", err)
 			return
@@ -82,6 +90,10 @@ func (r *c11Runner) step(pos int, step c11Step) {
 		r.subEv[i] = ev
 		r.subReg[i] = true
 		r.lab("LSubscribe %d", i)
+	case "fill":
+		r.fill(i)
+	case "svccall":
+		r.svcCall(pos, i)
 	case "start":
 		r.startCall(i)
 		if r.cancelled[i] {
@@ -297,6 +309,6 @@ func c11CaseTerm(sc c11Scenario, o *c11Obs) string {
 	for j := range cbs {
 		cbs[j] = fmt.Sprintf("%d", o.cbCount[j])
 	}
-	return fmt.Sprintf("{| k_n := %d; k_m := %d; k_d := %d; k_trace := [%s]; k_calls := [%s]; k_subs := [%s]; k_cbs := [%s] |}",
-		sc.n, sc.m, sc.d, strings.Join(o.labels, "; "), strings.Join(calls, "; "), strings.Join(subs, "; "), strings.Join(cbs, "; "))
+	return fmt.Sprintf("{| k_n := %d; k_m := %d; k_d := %d; k_trace := %s; k_calls := [%s]; k_subs := [%s]; k_cbs := [%s] |}",
+		sc.n, sc.m, sc.d, c11TraceTerm(o.labels), strings.Join(calls, "; "), strings.Join(subs, "; "), strings.Join(cbs, "; "))
 }
